@@ -52,7 +52,15 @@ Step(y) ==
             /\ h' = IF IsCopy(y) /\ ~DistValidW(h, DistOf(r, y), EffDict) THEN h ELSE ApplyH(h, r, y)
             /\ r' = RepsNext(r, y) /\ s' = StNext(s, y) /\ left' = left - y.n
        ELSE UNCHANGED <<h, g, r, s, left>>
-Next == \E y \in Symbols : Step(y)
+(* LZMA2 dictionary reset in mid-stream (control 0x01 / >= 0xE0): lz_decoder_reset(); the format forgets the history. *)
+(* With reset level "all" the LZMA state and reps start afresh as well.                                                *)
+VReset(gg) == CASE Variant = "reset_keeps_wrapped" -> [RingReset(gg) EXCEPT !.wrapped = gg.wrapped]
+                [] OTHER -> RingReset(gg)
+DictReset ==
+    /\ vd = "ok" /\ vo = "ok" /\ Len(h) > 0
+    /\ h' = <<>> /\ g' = VReset(g) /\ r' = <<0, 0, 0, 0>> /\ s' = 0
+    /\ UNCHANGED <<left, vd, vo, ve, last>>
+Next == DictReset \/ \E y \in Symbols : Step(y)
 Spec == Init /\ [][Next]_vars
 
 (* ---- the property ---- *)
